@@ -3,6 +3,7 @@ pub mod c02;
 pub mod c03;
 pub mod c04;
 pub mod c05;
+pub mod c06;
 pub mod c07;
 pub mod c08;
 pub mod c09;
@@ -10,6 +11,8 @@ pub mod c11;
 pub mod c12;
 pub mod c13;
 pub mod c14;
+pub mod c15;
+pub mod c17;
 pub mod c18;
 pub mod fixtures;
 
@@ -21,6 +24,7 @@ pub const ALL: &[&PropSpec] = &[
 	&c03::SPEC,
 	&c04::SPEC,
 	&c05::SPEC,
+	&c06::SPEC,
 	&c07::SPEC,
 	&c08::SPEC,
 	&c09::SPEC,
@@ -28,5 +32,8 @@ pub const ALL: &[&PropSpec] = &[
 	&c12::SPEC,
 	&c13::SPEC,
 	&c14::SPEC,
+	&c15::SPEC15,
+	&c15::SPEC16,
+	&c17::SPEC,
 	&c18::SPEC,
 ];
